@@ -495,7 +495,7 @@ def rule_r8(ck, prog, rule='C17.R8'):
     lp = loops[0]
     body = set(f.subtree(lp['body']))
     decls = {d['id']: d for n in f.nodes if n['k'] == 'declstmt' for d in n['decls']}
-    used = sorted({f.nodes[i]['id'] for i in body if f.nodes[i]['k'] == 'ref' and f.nodes[i].get('sk') in ('local', 'static_local') and
+    used = sorted({f.nodes[i]['id'] for i in body if f.nodes[i]['k'] == 'ref' and f.nodes[i].get('sk') in ('local', 'static_local', 'tls', 'static') and
                    f.nodes[i].get('id') in decls and 'ObserverResult' in (decls[f.nodes[i]['id']].get('t') or '')})
     if not used:
         ck.inconclusive(rule, f, 'observer-result-fresh-per-callback', None, 'no ObserverResult local is used in the callback loop')
